@@ -21,6 +21,7 @@ func init() {
 		ID:    "C06",
 		Level: "exploration",
 		Rule: "real HTTP server in front of buffer.New(handler, Retry, MemRequestBodyBytes(m)); bodies of length {0,1,m-1,m,m+1,2m,...,3MB} for m in {1,512,64k,1MB default}, declared length or chunked, 0-6 extra headers (multi-valued), 1-4 attempts where each failed attempt consumes none / k bytes / all of the body, then poisons r.Header (set, append, delete), r.URL (path, query) and closes the body before answering a retryable status; " +
+			"failed attempts may leave readers of their body behind (slow reader, gated io.Copy into a slow sink released during the next attempt, byte-wise spinning reader); a front middleware writes non-canonical and case-colliding header names into the map; verbose mode with a formatting Logger; credential headers; " +
 			"on every attempt the handler-side observation (method, URL, header set, ContentLength, TransferEncoding, body bytes) is compared with the client's own copy / the pristine values of attempt 1; non-trivial = body above the memory threshold or >= 2 attempts; distinct by (size, framing, m, attempt script)",
 		Assumptions: []string{"requests are sent by net/http's client over a real socket", "byte equality by SHA-256 + length + first differing offset"},
 		Parts:       []Part{{Name: "replay", Shards: 12, Fn: c06Replay}},
@@ -263,6 +264,17 @@ func c06Replay(c *Ctx) {
 				}(req.Body)
 				<-started
 				c.Count("spinning_stragglers", 1)
+			} else if a.Poison&128 != 0 && a.How == 0 && a.Read == -1 {
+				// a holder of this attempt's body that wakes up now and then long after the request is over and tries to read
+				// again, whatever it is told (not waited for: it lives on into the following requests)
+				go func(b io.Reader) {
+					buf := make([]byte, 512)
+					for q := 0; q < 400; q++ {
+						_, _ = b.Read(buf)
+						time.Sleep(time.Duration(50+q%7*40) * time.Microsecond)
+					}
+				}(req.Body)
+				c.Count("lingering_holders", 1)
 			} else if a.Poison&128 != 0 && k < nAttempts-1 {
 				// something keeps the failed attempt's body and goes on reading it after the attempt has returned
 				stragglers.Add(1)
@@ -326,7 +338,7 @@ func c06Replay(c *Ctx) {
 		req.Header.Set("X-Client-B", "beta")
 		req.Header.Add("X-Client-Multi", "one")
 		req.Header.Add("X-Client-Multi", "two")
-		req.Header.Set("Content-Type", "application/octet-stream")
+		req.Header.Set("Content-Type", pick(r, []string{"application/octet-stream", "application/octet-stream", "application/x-www-form-urlencoded", "application/json"}))
 		if r.IntN(2) == 0 {
 			req.Header.Set("Authorization", "Bearer "+randToken(r, 12))
 			req.Header.Set("Proxy-Authorization", "Basic "+randToken(r, 8))
